@@ -20,7 +20,8 @@ impl CmapSubtable {
     /// Create a new format 4 subtable
     ///
     /// Returns `None` if none of the input chars are in the BMP (i.e. have
-    /// codepoints <= 0xFFFF.)
+    /// codepoints <= 0xFFFF), or if the mappings do not fit in a format 4
+    /// subtable (which is limited to 65535 bytes).
     ///
     /// Invariants:
     ///
@@ -40,6 +41,16 @@ impl CmapSubtable {
             return None;
         }
         let n_segments = segments.len() + 1;
+        // The length of the subtable (and the range offsets in it) are u16s:
+        // if the mappings need more than that, format 4 cannot represent them.
+        let n_glyph_ids: usize = segments
+            .iter()
+            .filter(|segment| segment.id_delta.is_none())
+            .map(|segment| segment.end_ix - segment.start_ix + 1)
+            .sum();
+        if 16 + n_segments * 8 + n_glyph_ids * u16::RAW_BYTE_LEN > u16::MAX as usize {
+            return None;
+        }
         for (i, segment) in segments.into_iter().enumerate() {
             let start = mappings[segment.start_ix].0;
             let end = mappings[segment.end_ix].0;
@@ -192,6 +203,7 @@ impl Cmap {
         // if there are characters in the Unicode Basic Multilingual Plane (U+0000 to U+FFFF)
         // we need to emit format 4 subtables
         let bmp_subtable = CmapSubtable::create_format_4(&mappings);
+        let has_bmp_subtable = bmp_subtable.is_some();
         if let Some(bmp_subtable) = bmp_subtable {
             // Absent a strong signal to do otherwise, match fontmake/fonttools
             // Since both Windows and Unicode platform tables use the same subtable they are
@@ -210,8 +222,11 @@ impl Cmap {
         }
 
         // If there are any supplementary-plane characters (U+10000 to U+10FFFF) we also
-        // emit format 12 subtables
-        if mappings.iter().any(|(cp, _)| *cp > '\u{FFFF}') {
+        // emit format 12 subtables; we also need them if the BMP characters did
+        // not fit in a format 4 subtable
+        if mappings.iter().any(|(cp, _)| *cp > '\u{FFFF}')
+            || (!has_bmp_subtable && !mappings.is_empty())
+        {
             let full_repertoire_subtable = CmapSubtable::create_format_12(&mappings);
             // format 12 subtables are also going to be byte-shared, just like above
             uni_records.push(EncodingRecord::new(
